@@ -1269,6 +1269,23 @@ def setitem_tensor(t, it, ctx, idx, v):
         t.sort = "real" if "real" in (t.sort, src.sort) else t.sort
         t.meta["version"] = t.meta.get("version", 0) + 1
         return
+    # x[...] = v  /  x[:] = v  /  x[:, ...] = v : every element is overwritten by v broadcast to x's shape (write-through for views)
+    full = lambda x: x is ELLIPSIS or (isinstance(x, VSlice) and x.start is NONE and x.stop is NONE and x.step is NONE)  # noqa: E731
+    every = [idx] if not isinstance(idx, VTuple) else list(idx.items)
+    if every and all(full(x) for x in every) and sum(1 for x in every if x is ELLIPSIS) <= 1 and (
+            len(every) <= len(t.dims) or (len(every) == len(t.dims) + 1 and any(x is ELLIPSIS for x in every))):
+        src = as_tensor(v).frozen()
+        if len(src.dims) > len(t.dims):
+            raise Undecided("assignment of a higher-rank tensor")
+        cur = t.frozen()
+        bro = pointwise(ctx, [cur, src], lambda a, b: b)
+        if len(bro.dims) != len(cur.dims) or not all(same_extent(ctx, x.size, y.size) for x, y in zip(bro.dims, cur.dims)):
+            raise Undecided("assignment that would have to broadcast the destination")
+        if [len(d.atoms) for d in bro.dims] != [len(d.atoms) for d in t.dims]:
+            raise Undecided("assignment across differently factored dimensions")
+        new = VTensor(list(t.dims), bro.elem, "real" if "real" in (t.sort, src.sort) else src.sort)
+        assign_inplace(t, new, ctx)
+        return
     # x[..., mask] = v  /  x[:, mask] = v : a boolean mask over the trailing dims, everything before it a full slice / Ellipsis
     items = list(idx.items) if isinstance(idx, VTuple) else None
     if items and isinstance(items[-1], VTensor) and items[-1].sort == "bool" and all(
